@@ -44,7 +44,7 @@ def cancellable_variant():
 
 class Cancellable(Unit):
     name = "cancellable"; driver = "k1_cancellable"; cfg = "shim17"; handler = "cancellable"
-    maxruns = {"quick": 2500, "thorough": 60000}
+    maxruns = {"quick": 2500, "thorough": 30000}
     nrandom = {"quick": 300, "thorough": 3000}
     def programs(self, tier):
         progs = []
@@ -158,7 +158,7 @@ class Cancellable(Unit):
 class CancellableAsan(Cancellable):
     """the same driver under AddressSanitizer (thorough tier): the operation storage is really freed"""
     name = "cancellable-asan"; cfg = "shimasan17"
-    maxruns = {"quick": 0, "thorough": 8000}
+    maxruns = {"quick": 0, "thorough": 4000}
     nrandom = {"quick": 0, "thorough": 500}
     def programs(self, tier):
         return [] if tier == "quick" else Cancellable.programs(self, tier)
@@ -218,7 +218,7 @@ class CanaryAsan(Canary):
 class BasicSender(Unit):
     """create_basic_sender (C++20): recursive mutex + phase + recursion counter, safe / unsafe callbacks"""
     name = "basic_sender"; driver = "k1_basic_sender"; cfg = "shim20"; handler = "basicsender"
-    maxruns = {"quick": 2000, "thorough": 60000}
+    maxruns = {"quick": 2000, "thorough": 20000}
     nrandom = {"quick": 300, "thorough": 3000}
     FIRST = {"sync": "s", "inl": "i", "safe": "f", "unsafe": "u", "none": "n"}
     def programs(self, tier):
@@ -306,7 +306,7 @@ class BasicSender(Unit):
 
 class BasicSenderAsan(BasicSender):
     name = "basic_sender-asan"; cfg = "shimasan20"
-    maxruns = {"quick": 0, "thorough": 6000}
+    maxruns = {"quick": 0, "thorough": 3000}
     nrandom = {"quick": 0, "thorough": 500}
     def programs(self, tier):
         return [] if tier == "quick" else BasicSender.programs(self, tier)
